@@ -345,7 +345,7 @@ Definition confine_arith_ok (c : radii) (bb : size) : bool :=
    else true).
 
 (* ellipse_quadrant.rs:29-41 with ellipse/mod.rs:109-113, 188-204, circle/mod.rs:180-186:
-   Point - Size in i32, radius * 2 in u32, top_left * 2 + (size - 1) in i32, squares and their product in u64,
+   Point - Size in i32 (the Size is cast with a debug assertion), radius * 2 in u32, top_left * 2 + (size - 1) in i32, squares and their product in u64,
    the circle threshold diameter.pow(2) in u32 *)
 Definition quadrant_arith_ok (t : point) (rad : size) (q : quadrant) : bool :=
   let etl := match q with
@@ -358,6 +358,7 @@ Definition quadrant_arith_ok (t : point) (rad : size) (q : quadrant) : bool :=
   in_i32 (sw rad) && in_i32 (sh rad) && in_i32 (px etl) && in_i32 (py etl) &&
   fits_u32 dw && fits_u32 dh &&
   in_i32 (px etl * 2) && in_i32 (py etl * 2) &&
+  in_i32 (sat_sub_u32 dw 1) && in_i32 (sat_sub_u32 dh 1) &&
   in_i32 (px etl * 2 + sat_sub_u32 dw 1) && in_i32 (py etl * 2 + sat_sub_u32 dh 1) &&
   fits_u64 (dw * dw) && fits_u64 (dh * dh) &&
   (if dw =? dh then fits_u32 (dw * dw) else fits_u64 (dh * dh * (dw * dw))).
